@@ -37,6 +37,12 @@ import (
 // refresh completes that provably STARTED after the return (a refresh that follows, on the same stream
 // goroutine, one that completed after the return); (6) no call panics, no process-level panic.
 //
+// Slow connection: besides the Stop-during-a-slow-write cases the slowtap part lets the observed subscriber's writer
+// hold ONE notification for longer than a period plus the resolution and tolerance of the timestamp (no call
+// meanwhile); the next refresh of that stream was built after the held write returned and must say so (oracle 1,
+// lower bound = end of the previous write). Concurrent state queries: the conc parts repeat Stop / Start / restart
+// and make the final RemoveEntity while 4-8 goroutines poll IsHeartbeatRunning in a tight loop (oracles 4 and 5).
+//
 // In every second case a "mute" peer (x_mute.go: SetupRemoteDevice with a nil writer, every send to it fails)
 // subscribed to the DeviceDiagnosis feature before the observed peer: its send fault must not cost the observed
 // peer any refresh (oracle 3). The seq part also removes entities that are not in the device's entity list while
@@ -52,8 +58,9 @@ func init() {
 			"AddFunctionType(heartbeat)/StartHeartbeat/StopHeartbeat/IsHeartbeatRunning/RemoveEntity calls (RemoveEntity possibly a second time after a restart), one row 'restart-after-remove' (AddEntity, add, RemoveEntity, StartHeartbeat, RemoveEntity again), " +
 			"one row 'never-added' (NewEntityLocal, add - which starts the heartbeat -, RemoveEntity without any AddEntity; observed through DataCopy). In every second case of seq, conc and slowtap a peer without write handler (every send to it fails) " +
 			"subscribed to the DeviceDiagnosis feature before the observed peer; " +
-			"conc: 4-8 goroutines with 3-6 Start/Stop/IsRunning calls each, cyclic rendezvous of two or jitter at Heartbeat.stop.afterCheck and Heartbeat.start.afterStop, then a final sequential call that makes the expectation exact, then RemoveEntity; " +
-			"slowtap: Stop issued while a refresh is being written by a writer that is slower than the period; nofeature: histories that start the heartbeat although no DeviceDiagnosis heartbeat function was added, each in a child process. " +
+			"conc: 4-8 goroutines with 3-6 Start/Stop/IsRunning calls each, cyclic rendezvous of two or jitter at Heartbeat.stop.afterCheck and Heartbeat.start.afterStop, then a final sequential call that makes the expectation exact, " +
+			"then (periods <= 300 ms) 2-8 trials of Stop, Start and restarting Start, and finally (all periods) RemoveEntity, each called while 4-8 other goroutines query IsHeartbeatRunning in a tight loop (bounded; they have ended before the checkpoint judges: after Stop/RemoveEntity no live stream and no refresh beyond the one in flight, after Start exactly one stream); " +
+			"slowtap: Stop issued while a refresh is being written by a writer that is slower than the period; in four further cases (periods 300 and 500 ms) the observed subscriber's connection holds one notification for period + 2.1..2.5 s without any call being made, and the refreshes that follow must carry current timestamps; nofeature: histories that start the heartbeat although no DeviceDiagnosis heartbeat function was added, each in a child process. " +
 			"A case is non-trivial if at least one running checkpoint (refreshes judged) and one stopped checkpoint (silence judged) were decided without a watchdog expiry. distinct = (timeout, operation sequence, hook policy).",
 		Assumptions: []string{
 			"'periodically' cannot be decided without a clock: a running heartbeat that shows no refresh within a generous watchdog makes the case inconclusive, never violated; the deciding period check is the hook record period <= announced timeout",
@@ -62,13 +69,15 @@ func init() {
 			"'every refresh is notified to the subscribers' includes a subscriber whose entry follows that of a peer with a broken connection (the mute peer of x_mute.go, which is not observed itself); when the function data shows refreshes whose notifies never reach the observed peer, the running checkpoint stops waiting and oracle (3) (sampled refreshes vs. notifies) gives the verdict",
 			"'removal of the entity' is judged for every RemoveEntity call that returned, also when the entity is not (or no longer) in the device's entity list while its heartbeat runs (AddFunctionType starts it before AddEntity; StartHeartbeat restarts it after a removal)",
 			"the rendezvous at the two Start/Stop windows lies inside a mutex on the current tree: it expires (counted as window_closed) and is never judged",
+			"'a current timestamp' after a blocked notification: a stream builds refresh k+1 after the write of notification k returned (same goroutine), so its timestamp must not be older than the harness clock reading taken when that write was complete, minus 0.5 s (the stack rounds to whole seconds) minus 1 s tolerance (signature timestamp/older-than-the-end-of-the-previous-notification; judged for every pair of consecutive notifications of one stream in every part). The comparison is one-sided and causal (delays only make the timestamp later); it is skipped when the harness's own sampler was more than 500 ms late around that moment",
+			"IsHeartbeatRunning is an operation of the quantifier: other goroutines querying the state while Stop, Start or RemoveEntity run must not change what those calls achieve; what the concurrent queries return is only counted",
 			"histories that call StartHeartbeat before an effective AddFunctionType run in a child process, because the stream goroutine of the current tree dereferences a nil feature at its first tick and takes the process down (reported as heartbeat/start-without-feature-panics)",
 		},
 		Parts: []rig.Part{
 			{Name: "seq", Run: c16Seq, Workers: 32, Chunk: 1, Procs: 2, Quiet: 120 * time.Second, Cases: func(t rig.Tier) int { return map[rig.Tier]int{rig.Quick: 30, rig.Thorough: 300}[t] }},
 			{Name: "conc", Run: c16Conc, Workers: 20, Chunk: 1, Procs: 4, Quiet: 120 * time.Second, Cases: func(t rig.Tier) int { return map[rig.Tier]int{rig.Quick: 16, rig.Thorough: 140}[t] }},
 			{Name: "conc-race", Race: true, Run: c16Conc, Workers: 16, Chunk: 1, Procs: 4, Quiet: 180 * time.Second, Cases: func(t rig.Tier) int { return map[rig.Tier]int{rig.Quick: 8, rig.Thorough: 48}[t] }},
-			{Name: "slowtap", Run: c16SlowTap, Workers: 8, Chunk: 1, Procs: 2, Quiet: 120 * time.Second, Cases: func(t rig.Tier) int { return map[rig.Tier]int{rig.Quick: 6, rig.Thorough: 16}[t] }},
+			{Name: "slowtap", Run: c16SlowTap, Workers: 12, Chunk: 1, Procs: 2, Quiet: 120 * time.Second, Cases: func(t rig.Tier) int { return map[rig.Tier]int{rig.Quick: 6 + 4, rig.Thorough: 16 + 12}[t] }},
 			{Name: "nofeature", Run: c16NoFeature, Workers: 8, Chunk: 1, Procs: 2, Quiet: 120 * time.Second, Cases: func(t rig.Tier) int { return map[rig.Tier]int{rig.Quick: 6, rig.Thorough: 12}[t] }},
 			// run only as a child process of a nofeature case
 			{Name: "nofeature-child", Run: c16NoFeatureChild, Cases: func(rig.Tier) int { return 0 }},
@@ -82,6 +91,8 @@ func init() {
 type c16Notify struct {
 	Seq, Done int64 // rig.Seq at entry into and exit from the writer
 	At        time.Time
+	DoneAt    time.Time // harness clock when the write was complete (the writer is about to return to the stream)
+	Held      time.Duration
 	Goid      int64
 	Counter   uint64
 	HasCtr    bool
@@ -136,8 +147,9 @@ func (t *c16Tap) WriteShipMessageWithPayload(m []byte) {
 		default:
 		}
 		time.Sleep(time.Duration(h))
+		n.Held = time.Duration(h)
 	}
-	n.Done = rig.Seq()
+	n.Done, n.DoneAt = rig.Seq(), time.Now()
 	t.mu.Lock()
 	t.hbs = append(t.hbs, n)
 	t.mu.Unlock()
@@ -573,6 +585,10 @@ func (e *c16Env) finish() {
 	announced := e.timeout
 	var prev *c16Notify
 	lastAtByG := map[int64]time.Time{}
+	lastDoneByG := map[int64]c16Notify{}
+	e.mu.Lock()
+	tsLags := append([]c16Lag(nil), e.lags...)
+	e.mu.Unlock()
 	for i := range ns {
 		n := ns[i]
 		c.Events(1)
@@ -599,6 +615,35 @@ func (e *c16Env) finish() {
 		if n.TS.Before(lo.Add(-1500*time.Millisecond)) || n.TS.After(n.At.Add(1500*time.Millisecond)) {
 			c.Violate("timestamp/not-current", "notify counter=%d carries timestamp %s; it was produced between %s and %s (harness clock)", n.Counter, n.TS.Format(time.RFC3339), lo.UTC().Format(time.RFC3339Nano), n.At.UTC().Format(time.RFC3339Nano))
 		}
+		// "current" also after a notification that was held up by the subscriber's connection: a stream builds
+		// refresh k+1 only after the write of notification k has returned (same goroutine), so the clock reading in
+		// refresh k+1 is not older than the harness clock reading taken at the end of that write. The stack rounds
+		// the timestamp to whole seconds (0.5 s); on top of that 1 s tolerance. One-sided and causal: any delay of
+		// the stack or of the harness makes the timestamp later, never earlier. Not judged if the harness's own
+		// sampler was more than 500 ms late around that moment (stopped process, clock step).
+		if pd, ok := lastDoneByG[n.Goid]; ok && !pd.DoneAt.IsZero() {
+			late := time.Duration(0)
+			for _, l := range tsLags {
+				if l.At.After(pd.DoneAt.Add(-time.Second)) && l.At.Before(n.At.Add(time.Second)) && l.Late > late {
+					late = l.Late
+				}
+			}
+			switch {
+			case late > 500*time.Millisecond:
+				c.Count("timestamps_not_judged_against_the_previous_write(sampler late)", 1)
+			default:
+				c.Events(1)
+				c.Count("timestamps_judged_against_the_end_of_the_previous_write", 1)
+				if pd.Held > 0 {
+					c.Count("timestamps_judged_after_a_blocked_write", 1)
+				}
+				if n.TS.Before(pd.DoneAt.Add(-1500 * time.Millisecond)) {
+					c.Violate("timestamp/older-than-the-end-of-the-previous-notification", "notify counter=%d carries timestamp %s, but the write of the previous notification of this stream (counter=%d, held by the subscriber's connection for %s) was complete at %s (harness clock) and this refresh was built after that: the timestamp is %s older than that moment (allowed: 0.5 s rounding + 1 s tolerance); worst lateness of the harness's sampler around it: %s",
+						n.Counter, n.TS.Format(time.RFC3339), pd.Counter, pd.Held, pd.DoneAt.UTC().Format(time.RFC3339Nano), pd.DoneAt.Sub(n.TS).Round(time.Millisecond), late)
+				}
+			}
+		}
+		lastDoneByG[n.Goid] = n
 		lastAtByG[n.Goid] = n.At
 		prev = &ns[i]
 	}
@@ -967,6 +1012,98 @@ func c16Seq(c *rig.Ctx) {
 // ---------------------------------------------------------------------------
 // conc
 
+// contended executes one Start/Stop/RemoveEntity call while n goroutines query IsHeartbeatRunning in a tight loop
+// (each a bounded number of times). The call is made once every poller is at full speed; when it has returned the
+// pollers are stopped and waited for, so that whatever is judged afterwards is judged at quiescence. A state query
+// is an operation of the quantifier like any other: it must not change what Stop, Start or RemoveEntity achieve.
+func (e *c16Env) contended(op string, n int) (ok bool) {
+	const maxCalls = 3_000_000 // per poller
+	var halt atomic.Bool
+	var warm atomic.Int32
+	var calls, trues atomic.Int64
+	var wg sync.WaitGroup
+	for i := 0; i < n; i++ {
+		wg.Add(1)
+		go func() {
+			defer wg.Done()
+			defer func() {
+				if p := recover(); p != nil {
+					e.c.Violate("call-panics/isrunning", "IsHeartbeatRunning panicked while polled concurrently with %s: %v", op, p)
+					warm.Add(1)
+				}
+			}()
+			var k, t int64
+			for k = 0; k < maxCalls && !halt.Load(); k++ {
+				if e.hm.IsHeartbeatRunning() {
+					t++
+				}
+				if k == 200 {
+					warm.Add(1)
+				}
+			}
+			calls.Add(k)
+			trues.Add(t)
+		}()
+	}
+	rig.WaitFor(10*time.Second, func() bool { return int(warm.Load()) >= n })
+	e.call(op, "main")
+	halt.Store(true)
+	done := make(chan struct{})
+	go func() { wg.Wait(); close(done) }()
+	select {
+	case <-done:
+	case <-time.After(30 * time.Second):
+		e.undecided++
+		e.c.Inconclusive("the goroutines polling IsHeartbeatRunning did not finish within 30s after %s returned", op)
+		return false
+	}
+	e.c.Count("isrunning_queries_concurrent_with_a_call", calls.Load())
+	e.c.Count("calls_made_under_concurrent_isrunning_queries:"+op, 1)
+	e.note("%s called while %d goroutines polled IsHeartbeatRunning (%d queries, %d true)", op, n, calls.Load(), trues.Load())
+	return true
+}
+
+// c16Contended: trials of Stop, Start and restarting Start under concurrent state queries, each judged at quiescence
+// by the ordinary checkpoints (after Stop: no live stream, no refresh after the one in flight; after Start: one stream).
+func c16Contended(e *c16Env, pollers, trials int, running bool) (stillRunning, ok bool) {
+	c, r := e.c, e.c.Rand
+	cp := func(op string, run bool) {
+		s := rig.Seq()
+		v0, v0ok := e.counter()
+		if run {
+			e.checkpointRunning(op, s, v0, v0ok, true, 3)
+		} else {
+			e.checkpointStopped(op, s, v0, v0ok, 0)
+		}
+	}
+	for t := 0; t < trials && !c.Failed() && !e.lost; t++ {
+		if running && r.Intn(3) == 0 {
+			// restart: the old stream must be stopped although its state is being queried
+			if !e.contended("start", pollers) {
+				return running, false
+			}
+			cp("restart-under-concurrent-isrunning-queries", true)
+			continue
+		}
+		if running {
+			if !e.contended("stop", pollers) {
+				return running, false
+			}
+			running = false
+			cp("stop-under-concurrent-isrunning-queries", false)
+			if c.Failed() {
+				break
+			}
+		}
+		if !e.contended("start", pollers) {
+			return running, false
+		}
+		running = true
+		cp("start-under-concurrent-isrunning-queries", true)
+	}
+	return running, true
+}
+
 func c16Conc(c *rig.Ctx) {
 	r := c.Rand
 	timeout := []time.Duration{100 * time.Millisecond, 300 * time.Millisecond, 100 * time.Millisecond, 300 * time.Millisecond, 100 * time.Millisecond, 2500 * time.Millisecond}[c.Index%6]
@@ -1084,14 +1221,39 @@ func c16Conc(c *rig.Ctx) {
 			e.checkpointStopped("stop-after-concurrent-phase", s, v0, v0ok, 0)
 		}
 	}
+	// Stop / Start / restart / RemoveEntity while 4-8 other goroutines query IsHeartbeatRunning in a tight loop
+	pollers, trials := 4+r.Intn(5), 0
+	switch {
+	case e.period <= 100*time.Millisecond:
+		trials = c.Pick(4, 8)
+	case e.period <= 300*time.Millisecond:
+		trials = c.Pick(2, 4)
+	}
+	if c.Race && trials > 2 {
+		trials = c.Pick(2, 4)
+	}
+	if !c.Failed() && !e.lost {
+		running := final == "start"
+		if trials > 0 {
+			var ok bool
+			if running, ok = c16Contended(e, pollers, trials, running); !ok {
+				return
+			}
+		}
+		if !c.Failed() && !running && r.Intn(2) == 0 {
+			e.call("start", "main") // the removal meets a running heartbeat in most cases
+		}
+	}
 	if !c.Failed() {
-		e.call("remove", "main")
+		if !e.contended("remove", pollers) {
+			return
+		}
 		s = rig.Seq()
 		v0, v0ok = e.counter()
-		e.checkpointStopped("remove", s, v0, v0ok, 0)
+		e.checkpointStopped("remove-under-concurrent-isrunning-queries", s, v0, v0ok, 0)
 	}
 	e.finish()
-	c.Shape(fmt.Sprintf("%s %s mute=%v %s final=%s", timeout, policy, e.mute != nil, strings.Join(shape, "|"), final))
+	c.Shape(fmt.Sprintf("%s %s mute=%v %s final=%s pollers=%d trials=%d", timeout, policy, e.mute != nil, strings.Join(shape, "|"), final, pollers, trials))
 	c.NonTrivial(e.runningCP > 0 && e.stoppedCP > 0 && e.undecided == 0)
 	c.Seen("timeouts", timeout.String())
 	c.Seen("hook_policies", policy)
@@ -1105,7 +1267,72 @@ func c16Conc(c *rig.Ctx) {
 // ---------------------------------------------------------------------------
 // slowtap: Stop while a refresh is being written by a writer slower than the period
 
+// c16Stalled: one notification is held by the observed subscriber's connection for longer than one period plus
+// the resolution of the timestamp plus the tolerance (period + 2.1 .. 2.5 s), no call is made meanwhile; the
+// refreshes that follow must carry current timestamps (finish(): timestamp/older-than-the-end-of-the-previous-
+// notification) and increasing counters, and every sampled refresh must still be notified.
+func c16Stalled(c *rig.Ctx, j int) {
+	r := c.Rand
+	timeout := []time.Duration{300 * time.Millisecond, 500 * time.Millisecond}[j%2]
+	e := newC16EnvOpt(c, timeout, c16Opt{peer: true, mute: (j/2)%2 == 1})
+	defer e.close()
+	e.noGapOracle = true
+	e.startSampler()
+	e.call("add", "main")
+	{
+		s := rig.Seq()
+		v0, ok := e.counter()
+		e.checkpointRunning("add", s, v0, ok, true, 2)
+	}
+	if e.lost {
+		e.bailLost(fmt.Sprintf("stalled-writer %s cut short", timeout))
+		return
+	}
+	trials := c.Pick(2, 3)
+	if e.period >= 500*time.Millisecond {
+		trials = c.Pick(1, 3)
+	}
+	var holds []string
+	for i := 0; i < trials && !c.Failed(); i++ {
+		hold := e.period + 2100*time.Millisecond + time.Duration(r.Intn(5))*100*time.Millisecond
+		holds = append(holds, hold.String())
+		select {
+		case <-e.tap.entered:
+		default:
+		}
+		atomic.StoreInt64(&e.tap.hold, int64(hold))
+		select {
+		case <-e.tap.entered: // a notification is being held by the connection
+		case <-time.After(20*e.period + 15*time.Second):
+			e.undecided++
+			c.Inconclusive("no refresh reached the writer within the watchdog (trial %d)", i)
+			return
+		}
+		s := rig.Seq()
+		v0, v0ok := e.counter()
+		e.note("trial %d: the subscriber's connection holds one notification for %s", i, hold)
+		// the held one and three more of the same stream
+		e.checkpointRunning("blocked-notification", s, v0, v0ok, true, 3)
+		c.Count("notifications_blocked_longer_than_period_plus_2s", 1)
+	}
+	e.call("stop", "main")
+	s := rig.Seq()
+	v0, v0ok := e.counter()
+	e.checkpointStopped("stop", s, v0, v0ok, 0)
+	e.finish()
+	c.Shape(fmt.Sprintf("stalled-writer %s holds=%d mute=%v", timeout, trials, e.mute != nil))
+	c.NonTrivial(e.runningCP > trials && e.stoppedCP > 0 && e.undecided == 0)
+	sm := e.sample()
+	sm["flavor"] = "stalled-writer"
+	sm["holds"] = holds
+	c.Sample(sm)
+}
+
 func c16SlowTap(c *rig.Ctx) {
+	if old := c.Pick(6, 16); c.Index >= old {
+		c16Stalled(c, c.Index-old)
+		return
+	}
 	timeout := []time.Duration{100 * time.Millisecond, 200 * time.Millisecond}[c.Index%2]
 	e := newC16EnvOpt(c, timeout, c16Opt{peer: true, mute: (c.Index/2)%2 == 1})
 	defer e.close()
